@@ -14,7 +14,7 @@ func jsonUnmarshal(raw string, v any) error { return json.Unmarshal([]byte(raw),
 func (s *Session) extraObligations(prop string) ([]*Obligation, error) {
 	var out []*Obligation
 	switch prop {
-	case "C01", "C02", "C03", "C04", "C05", "C07", "C12", "C15", "C19":
+	case "C01", "C02", "C03", "C04", "C05", "C07", "C12", "C14", "C15", "C19":
 		out = append(out, s.tableObligations(prop)...)
 	}
 	out = append(out, s.frameObligations(prop)...)
